@@ -3,10 +3,10 @@ ids=sys.argv[1:]
 for l in open('/verif/properties.jsonl'):
     d=json.loads(l)
     if d['id'] in ids:
-        open(f"/tmp/wt17/{d['id']}.property.json","w").write(json.dumps(d,indent=1))
-t='''You are testing how robust a software project's guarantees are. You get ONE semantic property of the Python project baltech-ag/bec2format (a reader/writer for BALTECH BF3/BEC2 firmware files with bundled copies of python-ecdsa and pyaes under appnotes/register_crypto_plugin/) and a private scratch git worktree of it at /tmp/wt17/@ID@ . The property (JSON, with anchors into the code) is in the file /tmp/wt17/@ID@.property.json .
+        open(f"/tmp/wt18/{d['id']}.property.json","w").write(json.dumps(d,indent=1))
+t='''You are testing how robust a software project's guarantees are. You get ONE semantic property of the Python project baltech-ag/bec2format (a reader/writer for BALTECH BF3/BEC2 firmware files with bundled copies of python-ecdsa and pyaes under appnotes/register_crypto_plugin/) and a private scratch git worktree of it at /tmp/wt18/@ID@ . The property (JSON, with anchors into the code) is in the file /tmp/wt18/@ID@.property.json .
 
-Task: make ONE small, realistic change to the source in /tmp/wt17/@ID@ (the kind of slip a maintainer could make in a refactor, optimisation or "cleanup": an off-by-one, a wrong comparison, a dropped reduction, a cached value, a changed default, a swapped index, a missing edge case, a changed exception class, a reordered statement, a dropped keyword argument ...) such that
+Task: make ONE small, realistic change to the source in /tmp/wt18/@ID@ (the kind of slip a maintainer could make in a refactor, optimisation or "cleanup": an off-by-one, a wrong comparison, a dropped reduction, a cached value, a changed default, a swapped index, a missing edge case, a changed exception class, a reordered statement, a dropped keyword argument ...) such that
   1. the code still imports and runs,
   2. the repository's own test suite still passes exactly as before (same set of passing tests), and
   3. the property above is now violated for some concrete input that you can demonstrate.
@@ -15,23 +15,23 @@ It must NOT be one of the changes that were already tried:
 Pick a DIFFERENT mechanism: read the property's statement, quantifier and anchors carefully and look for a code path, input class or clause of the statement that none of the listed changes touches (rarely used parameters or convenience functions inside the anchored line ranges, boundary sizes, a second call on the same object, unusual but legal combinations of inputs, state kept between calls, error paths).
 
 Rules:
-- Work ONLY inside /tmp/wt17/@ID@ (and your own files under /tmp/wt17/@ID@/_seed/). Never touch /repo or /verif, never read /verif.
-- Python to use: /venv/bin/python (the project is importable from the worktree root; for the appnotes packages add /tmp/wt17/@ID@/appnotes to sys.path, e.g. `import register_crypto_plugin`, which registers the AES and ECC plug-ins). OpenSSL CLI: /root/miniconda/bin/openssl.
-- Test suite command (run it from the worktree root, BEFORE and AFTER your change, and compare the sets of passing test ids from the junit xml):  cd /tmp/wt17/@ID@ && rm -rf .hypothesis && /venv/bin/python -m pytest -q -p no:cacheprovider --timeout=900 --continue-on-collection-errors -p no:randomly --hypothesis-seed=0 --junitxml=/tmp/wt17/@ID@_before.xml   (and ..._after.xml)
+- Work ONLY inside /tmp/wt18/@ID@ (and your own files under /tmp/wt18/@ID@/_seed/). Never touch /repo or /verif, never read /verif.
+- Python to use: /venv/bin/python (the project is importable from the worktree root; for the appnotes packages add /tmp/wt18/@ID@/appnotes to sys.path, e.g. `import register_crypto_plugin`, which registers the AES and ECC plug-ins). OpenSSL CLI: /root/miniconda/bin/openssl.
+- Test suite command (run it from the worktree root, BEFORE and AFTER your change, and compare the sets of passing test ids from the junit xml):  cd /tmp/wt18/@ID@ && rm -rf .hypothesis && /venv/bin/python -m pytest -q -p no:cacheprovider --timeout=900 --continue-on-collection-errors -p no:randomly --hypothesis-seed=0 --junitxml=/tmp/wt18/@ID@_before.xml   (and ..._after.xml)
   (about 60 tests fail already on the unchanged tree - that is expected; what matters is that no passing test is lost.) The suite takes a few minutes. No network is available. The test run may create a directory `t/` in the worktree: delete it before making the patch.
 - Keep the change minimal (a few lines). Do not edit tests.
 
-Deliver, under /tmp/wt17/@ID@/_seed/ :
-  patch.diff  - `git -C /tmp/wt17/@ID@ diff -- . ':(exclude)_seed'` (must apply with `git apply` to a clean checkout of HEAD)
+Deliver, under /tmp/wt18/@ID@/_seed/ :
+  patch.diff  - `git -C /tmp/wt18/@ID@ diff -- . ':(exclude)_seed'` (must apply with `git apply` to a clean checkout of HEAD)
   demo.py     - a self-contained script taking the tree root from env TREE (default: the worktree), that exits 0 on the unchanged code and 1 on the changed code, printing the concrete input on which the property fails
   meta.json   - {"property": "@ID@", "summary": what was changed and why it breaks the property, "needs_to_manifest": which inputs show it, "files": [...], "ran": [the commands you actually ran and their results]}
-Verify the demo on BOTH the changed worktree (exit 1) and a pristine export (`git -C /tmp/wt17/@ID@ archive HEAD | tar -x -C <dir>`, exit 0), then delete the pristine export. Finish with a short report: the change, the failing input, the test-suite comparison. If after honest effort you cannot find a change that keeps the suite passing, say so and explain.
+Verify the demo on BOTH the changed worktree (exit 1) and a pristine export (`git -C /tmp/wt18/@ID@ archive HEAD | tar -x -C <dir>`, exit 0), then delete the pristine export. Finish with a short report: the change, the failing input, the test-suite comparison. If after honest effort you cannot find a change that keeps the suite passing, say so and explain.
 '''
 for i in ids:
     av=[]
-    for suf in ('','b','c','d','e','f','g','h','i','j','k','l'):
+    for suf in ('','b','c','d','e','f','g','h','i','j','k','l','m'):
         f=f'/verif/seeded/{i}{suf}/meta.json'
         if os.path.exists(f):
             m=json.load(open(f)); av.append("  - "+m['summary'][:420].replace('\n',' '))
-    open(f'/tmp/wt17/prompt_{i}.txt','w').write(t.replace('@ID@',i).replace('@AVOID@',"\n".join(av)))
+    open(f'/tmp/wt18/prompt_{i}.txt','w').write(t.replace('@ID@',i).replace('@AVOID@',"\n".join(av)))
 print("ok")
